@@ -11,6 +11,7 @@ import sys
 import vlib
 sys.path.insert(0, os.path.join(vlib.VERIF, "tools"))
 import extract_tables
+from checks import runnerlib
 
 CURVES = ["BN254", "BLS12_381", "GOLDILOCKS"]
 
@@ -60,10 +61,13 @@ def lessthan_abstract(ssa):
                 accs.append("I" + ("-" if v == "-" else "%s%s" % (v[0], v[1])))
         ident = "k" + hashlib.sha1(json.dumps([var[1], var[2], erase(access)]).encode()).hexdigest()[:10]
         return "%s~%s.%s~%s" % (ident, var[1], var[2], ";".join(accs) or "-")
+    params = [list(p) for p in ssa[3]]
+
     def fixed(e):
-        """the expression reads no local variable"""
+        """the expression reads no local variable other than a parameter of the template as passed (its entry version)"""
         if isinstance(e, list):
-            if e and e[0] in ("var", "acc", "upd") and isinstance(e[1], list) and e[1][:1] == ["m"] and e[1][5] != "-" and e[1][5][0] == "local":
+            if e and e[0] in ("var", "acc", "upd") and isinstance(e[1], list) and e[1][:1] == ["m"] and e[1][5] != "-" and e[1][5][0] == "local" \
+                    and list(e[2]) not in params:
                 return False
             return all(fixed(x) for x in e)
         return True
@@ -320,6 +324,15 @@ def run(ctx):
             ("distinct-expressions", head + "component ra = Num2Bits(%d); component rb = Num2Bits(%d); ra.in <== a; rb.in <== b + 1; lt.in[0] <== a; lt.in[1] <== b + 2; o <== lt.out; }" % (small, small), 1, 1),
             ("distinct-literals", head + "component ra = Num2Bits(%d); component rb = Num2Bits(%d); ra.in <== a; rb.in <== b * 3; lt.in[0] <== a; lt.in[1] <== b * 5; o <== lt.out; }" % (small, small), 1, 1),
             ("equal-expressions", head + "component ra = Num2Bits(%d); component rb = Num2Bits(%d); ra.in <== a; rb.in <== b + 1; lt.in[0] <== a; lt.in[1] <== b + 1; o <== lt.out; }" % (small, small), 0, 0),
+            # an input that reads only a parameter of the template has one value: a range check in another block may count (0), or not (1:
+            # the rule of 2b59069 before its refinement — sound, a false warning on a common shape; review 'latest2' f3)
+            ("parameter-index-other-block", head + "component ra = Num2Bits(%d); component rb = Num2Bits(%d); ra.in <== x[n]; rb.in <== b; var s = 1; if (n > 2) { s = 2; } "
+             "lt.in[0] <== x[n]; lt.in[1] <== b; o <== lt.out * s; }" % (small, small), 0, 1),
+            # ... but not once the parameter has been assigned: `x[n]` is then another element
+            ("parameter-assigned-after-check", head + "component ra = Num2Bits(%d); component rb = Num2Bits(%d); ra.in <== x[n]; rb.in <== b; if (n < 1) { n = n + 1; } else { n = n + 1; } "
+             "lt.in[0] <== x[n]; lt.in[1] <== b; o <== lt.out; }" % (small, small), 1, 1),
+            ("parameter-assigned-in-loop", head + "component nb[2]; component rb = Num2Bits(%d); var i = 0; while (i < 2) { nb[i] = Num2Bits(%d); nb[i].in <== x[n]; n = n + 1; i++; } "
+             "rb.in <== b; lt.in[0] <== x[n]; lt.in[1] <== b; o <== lt.out; }" % (small, small), 1, 1),
             # all elements alike: tracking a component array is allowed (0), declining to is as well (1)
             ("loop-index-uniform", head + "component nb[3]; component rb = Num2Bits(%d); var i = 0; while (i < 2) { nb[i] = Num2Bits(%d); nb[i].in <== x[i]; i++; } "
              "nb[2] = Num2Bits(%d); nb[i].in <== a; rb.in <== b; lt.in[0] <== a; lt.in[1] <== b; o <== lt.out; }" % (small, small, small), 0, 1),
@@ -358,19 +371,6 @@ def run(ctx):
             l2 += 1
             ctx.violation("c11-lessthan-pass-correspondence %s" % nm, {"stage": "L2", "curve": c, "source": src, "model_reports": got, "implementation_reports": real,
                                                                        "broken": "correspondence LessThanPass.reported <-> find_unconstrained_less_than"}, no_input=True)
-    # ---- the instantiation in `component main = T(...)` (audit C11 f2): it is an instantiation like any other
-    with vlib.Workdir("c11m") as wdm:
-        mains = [("BLS12_381", "Sign", "()", "pragma circom 2.0.0;\ntemplate Sign() { signal input in[254]; signal output sign; sign <== in[0]; }\n", "CS0016"),
-                 ("BN254", "Num2Bits", "(254)", "pragma circom 2.0.0;\ntemplate Num2Bits(n) { signal input in; signal output out[n]; for (var i = 0; i < n; i++) { out[i] <-- (in >> i) & 1; out[i] * (out[i] - 1) === 0; } }\n", "CS0010")]
-        reqm = []
-        for c, t, args, text, rid in mains:
-            p = wdm.write("main_%s.circom" % t, (text + "component main = %s%s;\n" % (t, args)).encode())
-            reqm.append({"inputs": [p], "libs": [], "curve": c})
-        for (c, t, args, text, rid), rep in zip(mains, vlib.analyze(reqm)):
-            evals += 1
-            ids = [r["id"] for r in vlib.reports_of(rep)] if "crash" not in rep else ["crash"]
-            if rid not in ids:
-                ctx.violation("c11-main-component %s" % t, {"stage": "L1 the main component is an instantiation", "curve": c, "template": t, "reports": ids, "broken": None})
     # ---- curve names -----------------------------------------------------------------------
     canon = {"BN254": "BN254", "BLS12_381": "BLS12_381", "GOLDILOCKS": "Goldilocks"}
     spell = set()
@@ -404,6 +404,51 @@ def run(ctx):
                                                        "broken": "correspondence Curve.parseCurve <-> Curve::from_str"}, no_input=True)
     # through the real binary (clap): exit status 2 = rejected by the option parser
     cli = vlib.build_cli()
+    # ---- the instantiation in `component main = T(...)` (audit C11 f2): it is an instantiation like any other; through the real
+    # binary, since the entry point is called from cli/src/main.rs. The templates of the file instantiate nothing, so every CS0016 /
+    # CS0010 comes from the main component: flagged exactly as the table and the threshold say.
+    with vlib.Workdir("c11m") as wdm:
+        body = {"Num2Bits": "(n) { signal input in; signal output out[n]; for (var i = 0; i < n; i++) { out[i] <-- (in >> i) & 1; out[i] * (out[i] - 1) === 0; } }",
+                "Bits2Num": "(n) { signal input in[n]; signal output out; var s = 0; for (var i = 0; i < n; i++) { s += in[i] * 2 ** i; } out <== s; }"}
+        mains = []
+        for t in ["Sign", "Poseidon", "BabyPbk", "Num2Bits_strict", "Signs", "sign", "MiMC", "T"]:
+            for args in ["()", "(2)"]:
+                mains.append((t, args))
+        for t in ["Num2Bits", "Bits2Num"]:
+            for args in ["(0)", "(1)", "(253)", "(254)", "(255)", "(300)", "(2 * 126 + 1)", "(2 * 127)", "(253 + 0 * f(1))", "(f(1))", "(1, 2)", "()"]:
+                mains.append((t, args))
+        jobs = []
+        for c in ["BN254", "BLS12_381", "GOLDILOCKS"]:
+            for t, args in mains:
+                text = "pragma circom 2.0.0;\nfunction f(x) { return x + 1; }\ntemplate %s%s\n" % (t, body.get(t, "() { signal input a; signal output b; b <== a; }" if args == "()" else "(n) { signal input a; signal output b; b <== a + n; }"))
+                p = wdm.write("main_%s_%d.circom" % (c, len(jobs)), (text + "component main = %s%s;\n" % (t, args)).encode())
+                want = set()
+                if c != "BN254" and t in spec[c]:
+                    want.add("CS0016")
+                if c == "BN254" and t in body and args not in ("(1, 2)", "()"):
+                    small = {"(0)": 0, "(1)": 1, "(253)": 253, "(254)": 254, "(255)": 255, "(300)": 300, "(2 * 126 + 1)": 253, "(2 * 127)": 254}.get(args)
+                    if small is None or small >= 254:
+                        want.add("CS0010")
+                jobs.append((c, t, args, p, want))
+        def run_main(j):
+            c, t, args, p, want = j
+            return runnerlib.run_cli(cli, {"inputs": [p], "libs": [], "curve": c})
+        # L2: the model of the two passes on one instantiation (`Curve.instReports`, the function `C11_every_instantiation` is about)
+        val = {"(0)": ["0"], "(1)": ["1"], "(253)": ["253"], "(254)": ["254"], "(255)": ["255"], "(300)": ["300"], "(2 * 126 + 1)": ["253"], "(2 * 127)": ["254"],
+               "(253 + 0 * f(1))": ["-"], "(f(1))": ["-"], "(1, 2)": ["1", "2"], "()": [], "(2)": ["2"]}
+        mreps = vlib.run_model(["c11 inst %s %s %s" % (c, t, " ".join(val[args])) for c, t, args, p, want in jobs])
+        for (c, t, args, p, want), r, mr in zip(jobs, runnerlib.pmap(run_main, jobs), mreps):
+            evals += 1
+            mgot = set(x for x in mr.strip().split(",") if x and x != "-")
+            if mgot != want:
+                l2 += 1
+                ctx.violation("c11-main-component-model %s%s %s" % (t, args, c), {"stage": "L2 Curve.instReports vs the specification", "curve": c, "main": "component main = %s%s;" % (t, args),
+                                                                                   "model": sorted(mgot), "specified": sorted(want), "broken": "correspondence Curve.instReports <-> the two instantiation passes"}, no_input=True)
+            got = {rid for d in r["diags"] for rid, msg in (("CS0016", "relies on BN254 specific parameters"), ("CS0010", "may lead to aliasing issues")) if msg in d[2]}
+            if r["rc"] not in (0, 1) or got != want:
+                l1 += 1
+                ctx.violation("c11-main-component %s%s %s" % (t, args, c), {"stage": "L1 the main component is an instantiation", "curve": c, "template": t, "main": "component main = %s%s;" % (t, args),
+                                                                             "argv": r["argv"], "exit": r["rc"], "reported": sorted(got), "specified": sorted(want), "input": open(p).read(), "broken": None})
     cli_cases = ["bn254", "Bls12_381", "goldilocks", "goldılocks", "GOLDILOCKſ", "bn255", "BLS12-381"]
     with vlib.Workdir("c11") as wd:
         f = wd.write("a.circom", "pragma circom 2.0.0;\ntemplate T() { signal input a; signal output b; b <== a; }\ncomponent main = T();\n")
